@@ -601,6 +601,7 @@ package main
 //@ func initTopicP2P(t *Topic, sreg *ClientComMessage) (err error)
 //@   requires t != nil && sreg != nil && sreg.Sub != nil && t.perUser != nil
 //@   requires [C01] old(t.lastID) == 0 && rowMax[t.name] <= hwm[t.name]
+//@   ensures [C02] p2p_names_are_the_peers: err == nil && !(stopic != nil && len(subs) == 2) && userID1 != userID2 ==> t.perUser[userID1].topicName == userIdText(userID2) && t.perUser[userID2].topicName == userIdText(userID1)
 //@   ensures [C09] marks_from_own_rows: err == nil && !(stopic != nil && len(subs) == 2) && userID1 != userID2 ==> t.perUser[userID2].readID == sub2.ReadSeqId && t.perUser[userID2].recvID == sub2.RecvSeqId && t.perUser[userID1].readID == sub1.ReadSeqId && t.perUser[userID1].recvID == sub1.RecvSeqId
 //@   modifies inferred
 //@   ensures [C01] lastID_restored: err == nil ==> t.lastID == hwm[t.name] && rowMax[t.name] <= t.lastID
@@ -753,12 +754,19 @@ package main
 
 // Per-recipient copy of a broadcast message: only the topic name (p2p, channels) and, for channel readers, the author
 // are rewritten; content, headers and id never.
+//@ func (t *Topic) original(uid types.Uid) (name string)
+//@   requires [C02] t != nil
+//@   modifies nothing
+//@   ensures [C02] p2p_name_recorded_for_the_user: t.cat == types.TopicCatP2P && (uid in t.perUser) ==> name == t.perUser[uid].topicName
+//@   ensures [C02] group_name: t.cat != types.TopicCatP2P && !(t.cat == types.TopicCatGrp && t.isChan) ==> name == t.xoriginal
 //@ func (t *Topic) prepareBroadcastableMessage(msg *ServerComMessage, uid types.Uid, isChanSub bool)
 //@   requires [C02] t != nil && msg != nil
 //@   modifies msg.Data.Topic, msg.Data.From, msg.Pres.Topic, msg.Info.Topic
 //@   ensures [C02] payload_kept: old(msg.Data) != nil ==> msg.Data == old(msg.Data) && msg.Data.SeqId == old(msg.Data.SeqId) && msg.Data.Content == old(msg.Data.Content) && msg.Data.Head == old(msg.Data.Head) && msg.Data.Timestamp == old(msg.Data.Timestamp)
 //@   ensures [C02] author: old(msg.Data) != nil ==> (isChanSub ==> msg.Data.From == "") && (!isChanSub ==> msg.Data.From == old(msg.Data.From))
 //@   ensures [C02] plain_group_name_kept: old(msg.Data) != nil && !(t.cat == types.TopicCatP2P && uid != types.ZeroUid) && !(t.cat == types.TopicCatGrp && t.isChan) ==> msg.Data.Topic == old(msg.Data.Topic)
+// (a participant of a p2p topic sees it under the name recorded for that participant - the other user's id)
+//@   ensures [C02] p2p_name_per_recipient: old(msg.Data) != nil && !isChanSub && t.cat == types.TopicCatP2P && uid != types.ZeroUid && (uid in t.perUser) ==> msg.Data.Topic == t.perUser[uid].topicName
 //@   ensures [C02] channel_name: old(msg.Data) != nil && isChanSub && ((t.cat == types.TopicCatP2P && uid != types.ZeroUid) || (t.cat == types.TopicCatGrp && t.isChan)) ==> msg.Data.Topic == types.GrpToChn(t.xoriginal)
 
 //@ func (src *ServerComMessage) copy() (dst *ServerComMessage)
